@@ -62,7 +62,8 @@ DEVIATIONS: t.Dict[str, t.List[t.Any]] = {
     "dc.env_flags": ["alt"],  # the other spelling of the envelope flags: 0 instead of 2 (seed keys), 3 instead of 1 (public key)
     "dc.name_style": ["unicode"],  # domain / forest names with non-ASCII and non-BMP characters
     "dc.forest": ["shorter", "longer"],
-    "dc.eph": ["zlead"],  # (client side, DH public-key mode) an ephemeral private key for which the shared secret Z = Y^x mod p begins with a zero octet  # a child domain / second tree: the forest name differs from the domain name (also in length)
+    "dc.eph": ["zlead"],
+    "dc.cache": ["given"],  # (client side) the caller passes a KeyCache of its own - a new, empty one: the conversation is the same  # (client side, DH public-key mode) an ephemeral private key for which the shared secret Z = Y^x mod p begins with a zero octet  # a child domain / second tree: the forest name differs from the domain name (also in length)
 }
 
 
@@ -110,6 +111,7 @@ def run_cfg(seed: int, c: Cfg):
     fst = shape.pop("forest", None)
     forest = dom if fst is None else (dom[len(dom) // 2 + 1 :] or "f") if fst == "shorter" else "root." + dom
     eph = shape.pop("eph", None)
+    own_cache = shape.pop("cache", None)
     if shape.pop("env_flags", None) == "alt":
         shape["envelope_override"] = lambda e: e._replace(flags={2: 0, 1: 3}.get(e.flags, e.flags))
     dc = refdc.DC([rk], now=now if c.op == "protect" else (L0, 31, 31), authorised=c.kind == "seed", domain=dom, forest=forest, sec=c.sec, sig_size=c.sig,
@@ -121,6 +123,8 @@ def run_cfg(seed: int, c: Cfg):
     blob = cms.ref_encrypt(rk, sid, PT, (L0, c.pos[0], c.pos[1]), cek=d.bytes(32), gcm_nonce_=d.bytes(12), key_nonce=d.bytes(32), domain=dom, forest=forest)
     user, pw = (secctx.NTLM_USER, secctx.NTLM_PASS) if c.sec == "ntlm" else ("u", "p")
     kw = dict(server="dc.verif.test", username=user, password=pw, auth_protocol="ntlm")
+    if own_cache:
+        kw["cache"] = dpapi_ng.KeyCache()
     ent = seams.Entropy(b"C17")
     if eph == "zlead" and c.kind == "DH" and c.op == "protect":
         ent.script_by_size[rk.priv_len // 8] = [zlead_private(rk, dtyp.target_sd(dtyp.parse_sid_string(sid)), now)]
